@@ -490,6 +490,12 @@ def f_spi_grid(ids, rng, sample=1.0, big=0):
             calls.append({"name": rng.choice(["xport.send_command", "xport.write_raw"]), "op": op,
                           "params": [(17 * ln + 3 * i + 1) % 256 for i in range(ln)]})
         out.append(scn(ids, xcfg("spi", buf), calls, tag="spi-commands", budget=20000))
+    # repeat counts of 2^31 pixels and more (count * N does not fit a u32): the call must still be sending when the
+    # operation budget of the recording ends
+    for n, cnt in huge_counts(rng):
+        buf = rng.choice([n, n + 1, 4 * n, 64, 65])
+        out.append(scn(ids, xcfg("spi", buf), [RAMWR, {"name": "xport.send_repeated_pixel", "n": n, "pixel": pix_words(rng, n, 8, rng.choice(["seq", "same"])),
+                                                       "count": split16(cnt)}], tag="spi-huge", budget=3000))
     # larger seeded random buffers / counts
     for _ in range(big):
         n = rng.choice([2, 3])
@@ -506,6 +512,14 @@ def f_spi_grid(ids, rng, sample=1.0, big=0):
                 calls.append({"name": "xport.send_pixels", "n": n, "px": [pix_words(rng, n, 8) for _ in range(cnt)]})
             calls.append(RAMWR)
         out.append(scn(ids, xcfg("spi", buf), calls, tag="spi-big", budget=200000))
+    return out
+
+
+def huge_counts(rng):
+    """(words per pixel, count) with count >= 2^31, around the points where count * N wraps a u32"""
+    M = 1 << 32
+    out = [(1, M - 1), (2, 1 << 31), (2, (1 << 31) + 1), (2, (1 << 31) + rng.randrange(2, 9)), (2, M - 1),
+           (3, M - 1), (3, 2863311531), (3, 2863311531 + rng.randrange(1, 5)), (3, rng.randrange(1 << 31, M))]
     return out
 
 
@@ -584,6 +598,12 @@ def f_parallel(ids, rng, sample=1.0, big=0):
             s = scn(ids, xcfg(busname), calls, tag="bus-faults")
             s["faults"] = faults
             out.append(s)
+    for iface, wbits in (("p8", 8), ("p16", 16)):
+        for n, cnt in huge_counts(rng):
+            v = rng.randrange(1 << wbits); u = v ^ (1 << rng.randrange(wbits))
+            for pixel in ([v] * n, [v] * (n - 1) + [u]):
+                out.append(scn(ids, xcfg(iface), [RAMWR, {"name": "xport.send_repeated_pixel", "n": n, "pixel": pixel, "count": split16(cnt)}],
+                               tag="par-huge", budget=3000))
     for _ in range(big):
         iface, wbits = rng.choice([("p8", 8), ("p16", 16)])
         n = rng.choice([1, 2, 3])
